@@ -348,6 +348,8 @@ func recheck(oracle string, ops, res []string) (bool, string) {
 				}
 			} else if res[i] == "timeout" || strings.HasPrefix(res[i], "panic") {
 				return true, "the library did not return normally (" + res[i] + ") on " + trunc(ops[i], 200)
+			} else if bad, detail := typeDepVerdict(ops[i], res[i]); bad {
+				return true, detail
 			}
 		}
 		return false, ""
@@ -425,11 +427,7 @@ func classifyFailure(oracle string, ops, res []string) string {
 	if len(ops) == 0 {
 		return ""
 	}
-	switch oracle {
-	case "api-total", "deptype-roundtrip":
-		return apiFinding(ops[0])
-	}
-	if oracle != "pom-ref" {
+	if oracle != "pom-ref" { // the API path has no finding class: every failure of its oracles is a violation
 		return ""
 	}
 	l, ok := lineageOf(ops[0])
